@@ -164,8 +164,9 @@ pub fn shard(tier: &str, range: &str) -> i32 {
 pub fn replay(doc: &Value) -> i32 {
   if doc["replay"]["layer"] == "wire" {
     let q: Vec<u8> = serde_json::from_value(doc["replay"]["sequence"].clone()).expect("sequence");
-    println!("wire-level sequence {q:?} (0 = good DATA, s = odd variant s-1)");
-    return match wire_case(&q) {
+    let perm: Vec<usize> = serde_json::from_value(doc["replay"]["arrival_order"].clone()).unwrap_or_else(|_| (0..q.len()).collect());
+    println!("wire-level sequence {q:?} (0 = good DATA, s = odd variant s-1), arrival order of positions {perm:?}");
+    return match wire_case(&q, &perm) {
       Ok(()) => {
         println!("no violation on this sequence");
         0
@@ -215,20 +216,40 @@ pub fn one(tier: &str, idx: usize) -> i32 {
   0
 }
 
-/// one wire-level sequence (symbol 0 = good DATA, s > 0 = odd variant s-1)
-fn wire_case(q: &[u8]) -> Result<(), (String, String)> {
+/// one wire-level sequence (symbol 0 = good DATA, s > 0 = odd variant s-1); `perm` = arrival order of the
+/// positions (sequence number = position + 1)
+fn wire_case(q: &[u8], perm: &[usize]) -> Result<(), (String, String)> {
   use rustdds::verif::{
     sim_reader::{wport, RCfg, SimReader},
     wire::Sub,
   };
   let r = std::panic::catch_unwind(|| -> Result<(), (String, String)> {
     let mut sim = SimReader::new(RCfg { reliable: true, history: 0, nwriters: 1, frag_size: 1024 });
-    for (j, sym) in q.iter().enumerate() {
-      let sn = j as i64 + 1;
-      let b = if *sym == 0 { sim.data_bytes(0, sn, 1, 0, true) } else { sim.odd_bytes(0, sn, *sym - 1) };
+    for &j in perm {
+      let (sn, sym) = (j as i64 + 1, q[j]);
+      let b = if sym == 0 { sim.data_bytes(0, sn, 1, 0, true) } else { sim.odd_bytes(0, sn, sym - 1) };
       sim.inject(&b);
     }
     let n = q.len() as i64;
+    let good: Vec<i64> = q.iter().enumerate().filter(|(_, s)| **s == 0).map(|(j, _)| j as i64 + 1).collect();
+    let first_odd = q.iter().position(|s| *s > 0).map(|p| q[p] - 1).unwrap_or(0);
+    // every sequence number 1..n has arrived: the application must get every good sample now, without
+    // waiting for more traffic from the writer (a HEARTBEAT may be seconds away, or never come)
+    let mut handed: Vec<i64> = vec![];
+    for _ in 0..q.len() + 3 {
+      match sim.take(usize::MAX) {
+        Ok(v) => {
+          if v.is_empty() {
+            break;
+          }
+          handed.extend(v.iter().filter(|t| t.is_value && t.k == 1).map(|t| t.sn));
+        }
+        Err(_) => {}
+      }
+    }
+    if handed != good {
+      return Err((format!("C09:wire:withheld:variant{first_odd}"), format!("every sequence number 1..{n} has arrived (arrival order of positions {perm:?}), good samples are {good:?}, but before any further traffic the reader handed over only {handed:?}")));
+    }
     let _ = sim.sent();
     let hb = sim.hb_bytes(0, 1, n, 1, false);
     sim.inject(&hb);
@@ -244,8 +265,7 @@ fn wire_case(q: &[u8]) -> Result<(), (String, String)> {
         }
       }
     }
-    // the application drains the reader; an unintelligible change may be reported as an error, once each
-    let mut handed: Vec<i64> = vec![];
+    // the application drains the reader again; an unintelligible change may be reported as an error, once each
     for _ in 0..q.len() + 3 {
       match sim.take(usize::MAX) {
         Ok(v) => {
@@ -257,10 +277,8 @@ fn wire_case(q: &[u8]) -> Result<(), (String, String)> {
         Err(_) => {}
       }
     }
-    let good: Vec<i64> = q.iter().enumerate().filter(|(_, s)| **s == 0).map(|(j, _)| j as i64 + 1).collect();
     if handed != good {
-      let first_odd = q.iter().position(|s| *s > 0).map(|p| q[p] - 1).unwrap_or(0);
-      return Err((format!("C09:wire:not-delivered:variant{first_odd}"), format!("good samples {good:?} arrived in order, the reader handed over {handed:?}")));
+      return Err((format!("C09:wire:not-delivered:variant{first_odd}"), format!("good samples {good:?} arrived (arrival order of positions {perm:?}), the reader handed over {handed:?}")));
     }
     if base != Some(n + 1) || !requested.is_empty() {
       let stuck = base.unwrap_or(0);
@@ -275,6 +293,25 @@ fn wire_case(q: &[u8]) -> Result<(), (String, String)> {
   }
 }
 
+fn permutations(n: usize) -> Vec<Vec<usize>> {
+  fn rec(cur: &mut Vec<usize>, n: usize, out: &mut Vec<Vec<usize>>) {
+    if cur.len() == n {
+      out.push(cur.clone());
+      return;
+    }
+    for x in 0..n {
+      if !cur.contains(&x) {
+        cur.push(x);
+        rec(cur, n, out);
+        cur.pop();
+      }
+    }
+  }
+  let mut out = vec![];
+  rec(&mut vec![], n, &mut out);
+  out
+}
+
 /// Wire level: the same question one stage earlier, where a DATA submessage becomes a cache change.  All
 /// in-order sequences over {good DATA, eight kinds of DATA the Reader cannot turn into an ordinary sample}
 /// from one writer into a real reliable Reader; then a HEARTBEAT.  Whatever the Reader makes of an odd one,
@@ -285,7 +322,8 @@ fn wire_level(rep: &mut Report, maxl: usize) {
     wire::{Sub, ODD_VARIANTS},
   };
   let a = 1 + ODD_VARIANTS as usize; // symbol 0 = good, 1.. = odd variant
-  let mut seqs: Vec<Vec<u8>> = vec![];
+  let perml = maxl - 1;
+  let mut seqs: Vec<(Vec<u8>, Vec<usize>)> = vec![];
   for len in 1..=maxl {
     for i in 0..a.pow(len as u32) {
       let mut x = i;
@@ -295,17 +333,24 @@ fn wire_level(rep: &mut Report, maxl: usize) {
         x /= a;
       }
       if q.iter().any(|s| *s > 0) {
-        seqs.push(q);
+        // every arrival order for the short sequences, in-order arrival for the longest ones
+        if len <= perml {
+          for perm in permutations(len) {
+            seqs.push((q.clone(), perm));
+          }
+        } else {
+          seqs.push((q, (0..len).collect()));
+        }
       }
     }
   }
-  let res = crate::engine::par_map(seqs.len(), 16, |i| wire_case(&seqs[i]));
+  let res = crate::engine::par_map(seqs.len(), 16, |i| wire_case(&seqs[i].0, &seqs[i].1));
   let mut n = 0u64;
   for (i, r) in res.into_iter().enumerate() {
     n += 1;
     if let Err((key, msg)) = r {
-      let names: Vec<String> = seqs[i].iter().map(|s| if *s == 0 { "good".into() } else { format!("odd{}", s - 1) }).collect();
-      rep.violation(&key, json!({"layer": "wire", "sequence": seqs[i]}), &format!("DATA sequence {names:?} (sn 1.., in order) into a reliable reader: {msg}"));
+      let names: Vec<String> = seqs[i].0.iter().map(|s| if *s == 0 { "good".into() } else { format!("odd{}", s - 1) }).collect();
+      rep.violation(&key, json!({"layer": "wire", "sequence": seqs[i].0, "arrival_order": seqs[i].1}), &format!("DATA sequence {names:?} (sn 1..) into a reliable reader: {msg}"));
     }
   }
   rep.set("wire_level_sequences", json!(n));
@@ -373,7 +418,7 @@ pub fn run(tier: &str) -> i32 {
   rep.set("exhaustive", json!(skipped == 0));
   rep.set("cases_skipped_after_fault_budget", json!(skipped));
   wire_level(&mut rep, if tier == "thorough" { 5 } else { 4 });
-  rep.set("rule", json!(format!("wire level: all in-order DATA sequences of length 1..=4 (thorough 5) over {{good, 8 kinds a Reader cannot turn into an ordinary sample: dispose / unregister / no-flag status / no status info by unknown key hash, neither payload nor inline QoS, empty serialized key, unknown representation, undecodable payload}} into a real reliable Reader, then a HEARTBEAT: every good sample handed over in order, ACKNACK base past everything and requesting nothing. Cache level: all sequences of length 1..={maxl} over {} symbols (2 good values of 2 writers, dispose-by-key-hash, 4 unintelligible kinds x 2 writers) x {{reliable, best-effort}} x {{with_key, no_key}} x 5 access forms, each in a watched subprocess shard (6 s per case, 4 GiB address space); distinct_nontrivial = distinct (reader kind, form, length, number of unintelligible changes) classes among a 1/97 sample of the cases", al.len())));
+  rep.set("rule", json!(format!("wire level: all DATA sequences of length 1..=4 (thorough 5) - in every arrival order up to length 3 (thorough 4), in order for the longest - over {{good, 8 kinds a Reader cannot turn into an ordinary sample: dispose / unregister / no-flag status / no status info by unknown key hash, neither payload nor inline QoS, empty serialized key, unknown representation, undecodable payload}} into a real reliable Reader: once all have arrived every good sample is handed over in order WITHOUT further traffic; then a HEARTBEAT: nothing is handed over twice, ACKNACK base past everything and requesting nothing. Cache level: all sequences of length 1..={maxl} over {} symbols (2 good values of 2 writers, dispose-by-key-hash, 4 unintelligible kinds x 2 writers) x {{reliable, best-effort}} x {{with_key, no_key}} x 5 access forms, each in a watched subprocess shard (6 s per case, 4 GiB address space); distinct_nontrivial = distinct (reader kind, form, length, number of unintelligible changes) classes among a 1/97 sample of the cases", al.len())));
   rep.assumptions = vec![
     "Changes are injected into the real TopicCache as Reader::make_cache_change does; the access is repeated until it reports 'nothing more' (at most number of changes + 3 calls)".into(),
     "A dispose by key hash is intelligible iff the same writer sent a value of that key earlier; if only another writer did, either outcome is accepted (cross-writer processing order is not fixed)".into(),
